@@ -150,7 +150,16 @@ def conclude(prop, tier, seed, results, t0, a):
     n_ob = len(groups)
     n_dis = len(discharged)
     wall = time.time() - t0
-    level = "proof" if (not known_reported and not violations) else "other"
+    STATIC_LEVEL = {"C07": "other", "C12": "other", "C16": "other", "C13": "fault_enumeration"}
+    level = STATIC_LEVEL.get(prop) or ("proof" if (not known_reported and not violations)
+                                       else "other")
+    locksets = {}
+    if table.PROPS[prop].get("derived"):
+        from props import locksets as LS
+        locksets = LS.snapshot({table.PROPS[prop]["derived"]: infos})
+    fault_sites = sorted({(o["name"].split("/")[1], (o["detail"] or "").split("after ")[-1][:80])
+                          for o in obs if o["name"].startswith("fault[")
+                          and "no fault" not in (o["detail"] or "")})
     exit_code = 0
     reason = ""
     if errors:
@@ -209,6 +218,16 @@ def conclude(prop, tier, seed, results, t0, a):
             "outcomes_covered": {f"{r['job'][1]}[{r['job'][2]}]": r["outcomes"]
                                  for r in results if r["job"][0] == "fn"},
             "samples": samples,
+            "lock_sets_at_access_sites": locksets,
+            "evaluations": len(obs),
+            "distinct_nontrivial": (len(fault_sites) if prop == "C13" else n_ob),
+            "rule": ("one execution = one symbolic path of a fully inlined call with one injected "
+                     "OSError at one fault site (one-off or persistent); distinct = distinct "
+                     "(scenario, fault site) pairs at which a failure was injected"
+                     if prop == "C13" else
+                     "one evaluation = one proof obligation checked on one symbolic path; "
+                     "distinct = distinct named obligations (name, site)"),
+            "fault_sites": [list(x) for x in fault_sites][:400],
             "explanation": "contract-based deductive verification: every real function body in "
                            "the property's dependency cone is symbolically executed from the "
                            "current source and checked against its sidecar contract; the "
